@@ -91,6 +91,29 @@ def run_C16(res, tier):
                     if viol is None and (len(x) != n or x.duration != n / rate or len(x.data) != n * w * ch):
                         viol = {"what": "%s of %d samples at %d Hz (sw=%d, ch=%d): len() = %r, duration = %r, expected %d and %r" % (what_, n, rate, w, ch, len(x), x.duration, n, n / rate),
                                 "samples": n, "rate": rate, "format(sw,ch)": [w, ch]}
+    # large regions (beyond 64 KiB): slicing against Python slicing of the sample sequence, judged on the bytes
+    for (n, sr_, w, ch) in ((20000, 16000, 2, 2), (70000, 8000, 1, 1), (40000, 44100, 4, 3)):
+        bps_ = w * ch
+        big = bytes((i * 31 + (i >> 8)) % 251 for i in range(n * bps_))
+        reg = AudioRegion(big, sr_, w, ch)
+        bounds = [None, 0, 1, n // 4, n // bps_, n // bps_ + 1, n - 1, n, n + 5, -1, -n // 4, -n, -n - 3, 65536 // bps_, 65536, 5000]
+        for a in bounds:
+            for b in bounds:
+                got = reg[a:b]
+                exp = big[slice(a, b).indices(n)[0] * bps_:max(slice(a, b).indices(n)[0], slice(a, b).indices(n)[1]) * bps_]
+                if viol is None and (got.data != exp or len(got) != len(exp) // bps_):
+                    viol = {"what": "region[%r:%r] of a %d-sample (sw=%d,ch=%d) region returns %d samples, Python slicing of the sample sequence gives %d%s" % (
+                        a, b, n, w, ch, len(got.data) // bps_, len(exp) // bps_, "" if len(got.data) != len(exp) else " (same length, other content)"),
+                            "samples": n, "format(sw,ch)": [w, ch], "slice": [a, b]}
+    # very long regions: millisecond bounds beyond 2^31 ms (24.8 days) must agree with the seconds view
+    days = AudioRegion(bytes(21700000), 10, 1, 1)
+    for (a, b) in ((2147484000, 2147486000), (2147483000, 2147484500), (None, 2147483648), (2150000000, None), (-2160000000, -2159990000)):
+        m = days.ms[a:b]
+        s_ = days.sec[(None if a is None else a / 1000):(None if b is None else b / 1000)]
+        if viol is None and m.data != s_.data:
+            viol = {"what": "milliseconds view [%r:%r] of a 25-day region returns %d samples, the seconds view at t/1000 returns %d" % (a, b, len(m), len(s_)),
+                    "rate": 10, "samples": len(days), "ms_slice": [a, b]}
+    del days
     n_samples_cases = len(cases)
     # ---- seconds / milliseconds views
     rates = [7, 10, 441, 16000]
@@ -251,6 +274,33 @@ def run_C17(res, tier):
             impl.append([1, 3])
         except Exception as x:
             impl.append([1, exc_code(x)])
+    # many channels / same frame size with different (width, channels): still a parameter mismatch
+    wide = [(1, 16), (2, 8), (4, 4), (1, 8), (2, 4), (1, 9), (1, 1), (2, 16), (4, 8)]
+    for (w1, c1) in wide:
+        for (w2, c2) in wide:
+            a = AudioRegion(bytes([1]) * (w1 * c1 * 4), 16000, w1, c1)
+            b = AudioRegion(bytes([2]) * (w2 * c2 * 4), 16000, w2, c2)
+            for how, fn in (("a + b", lambda: a + b), ("a.join([b, b])", lambda: a.join([b, b])), ("sum([a, b])", lambda: sum([a, b]))):
+                try:
+                    out = fn()
+                    raised = False
+                except Exception as x:
+                    raised = exc_code(x)
+                same = (w1, c1) == (w2, c2)
+                if viol is None and (same and raised or (not same and raised != 5)):
+                    viol = {"what": "%s with (sw=%d, ch=%d) and (sw=%d, ch=%d) at the same rate %s; regions that differ in width or channel count must raise AudioParameterError and equal ones must combine" % (
+                        how, w1, c1, w2, c2, "raised error code %r" % raised if raised else "returned a region"), "formats": [[w1, c1], [w2, c2]]}
+    # large joins and concatenations (tens of megabytes): exactly the byte-level interleaving
+    sil = make_silence(0.5, 16000, 2, 1)
+    parts = [AudioRegion(bytes([k % 250 + 1]) * (1 << 20), 16000, 2, 1) for k in range(36 if quick else 70)]
+    joined = sil.join(parts)
+    if viol is None and joined.data != sil.data.join(p.data for p in parts):
+        viol = {"what": "joining %d regions of 1 MiB with a 0.5 s silence gives %d bytes, the byte-level interleaving has %d" % (
+            len(parts), len(joined.data), len(sil.data.join(p.data for p in parts))), "regions": len(parts), "region_bytes": 1 << 20}
+    total = sum(parts[:20])
+    if viol is None and total.data != b"".join(p.data for p in parts[:20]):
+        viol = {"what": "sum of 20 regions of 1 MiB is not their byte concatenation"}
+    del joined, total, parts
     # division: every n from 1 to len+3, all pieces
     for L in range(1, 9 if quick else 14):
         for (w, ch) in FORMATS:
